@@ -15,7 +15,7 @@ import (
 func init() {
 	register(&Spec{ID: "C17", Title: "Connection descriptions round-trip and never crash the parser", Run: runC17,
 		Meta: core.Meta{
-			Explanation: "Totality and rejection clauses of the property; round-trip equality is not decided. R17.1 (E-LEN): every slice/string index and slice expression in the functions reachable from dsn.Parse, ParseURI, ParseSimple, FormatURI, FormatSimple and FromEnv is proved in range from length facts (dominating len tests, `!= \"\"`, strings.Split/SplitN post-conditions, range/induction patterns) or is a listed reviewed invariant whose guard is re-checked; anything else is a violation (user-supplied DSN text can reach it). R17.2: in both parsers every setValue call is preceded by a comma-ok lookup of the key in the tag-to-field map whose !ok edge returns a non-nil error, and the looked-up field is the one set. R17.3 (E-CONST): the reflect.Kind case sets of setValue and of the formatters agree and setValue's default arm returns an error. R17.4: TagToField never registers the empty string as a key (every map update whose key comes from a split tag is guarded by key != \"\"), so an empty key cannot match a field. R17.5: in ParseURI the value used for a repeated query key is the LAST element of its value list (values[len(values)-1]).",
+			Explanation: "Totality and rejection clauses of the property; round-trip equality is not decided. R17.1 (E-LEN): every slice/string index and slice expression in the functions reachable from dsn.Parse, ParseURI, ParseSimple, FormatURI, FormatSimple and FromEnv is proved in range from length facts (dominating len tests, `!= \"\"`, strings.Split/SplitN post-conditions, range/induction patterns) or is a listed reviewed invariant whose guard is re-checked; anything else is a violation (user-supplied DSN text can reach it). R17.2: in both parsers every setValue call is preceded by a comma-ok lookup of the key in the tag-to-field map whose !ok edge returns a non-nil error, and the looked-up field is the one set. R17.3 (E-CONST): the reflect.Kind case sets of setValue and of the formatters agree and setValue's default arm returns an error. R17.4: TagToField never registers the empty string as a key (every map update whose key comes from a split tag is guarded by key != \"\"), so an empty key cannot match a field. R17.5: in ParseURI the value used for a repeated query key is the LAST element of its value list (values[len(values)-1]). R17.6: every iteration of ParseSimple over a key=value part reaches the key lookup or returns an error (no shortcut, e.g. for empty values, skips the unknown-key test and the assignment).",
 			NotDecided:  "Round-trip equality, alias precedence in the simple form and panics inside package reflect for targets that lack the four tags ParseURI hard-codes are not decided.",
 			Assumptions: []string{"strings.Split(s, sep) with a non-empty separator returns at least one element; strings.SplitN(s, sep, 2) one or two", "url.Values entries are non-empty slices (net/url only creates entries by appending)"},
 		}})
@@ -27,6 +27,7 @@ func runC17(r *core.Run) {
 	r.Rule("R17.2", "keys that match no field are rejected before anything is set", 2, false)
 	r.Rule("R17.3", "field kinds handled consistently; unknown kinds are errors", 1, false)
 	r.Rule("R17.4", "the empty string is never a registered key", 2, false)
+	r.Rule("R17.6", "every key=value part of a simple DSN is looked up (no part is skipped before the unknown-key test)", 1, false)
 	r.Rule("R17.5", "the last value of a repeated URI query key wins", 1, false)
 
 	var roots []*ssa.Function
@@ -143,6 +144,7 @@ func runC17(r *core.Run) {
 	c17Kinds(r)
 	c17EmptyKey(r)
 	c17LastWins(r)
+	c17EveryPart(r)
 }
 
 func osDebug() bool { return false }
@@ -355,4 +357,58 @@ func c17LastWins(r *core.Run) {
 		why = "the value set for a query key is element " + core.Expr(ia.Index) + " of its value list, not the last one"
 	}
 	r.Check(ok, "R17.5", "ParseURI: last value of a repeated key", fn.Pos(), "values[len(values)-1]", why)
+}
+
+// c17EveryPart: in ParseSimple every iteration of the loop over the DSN's
+// parts reaches the comma-ok lookup of its key, or returns an error; no
+// shortcut (e.g. for empty values) skips a part before the unknown-key test
+// and the assignment.
+func c17EveryPart(r *core.Run) {
+	p := r.Prog
+	fn := p.Func("dsn", "", "ParseSimple")
+	setValue := p.Func("dsn", "", "setValue")
+	calls := callsTo(fn, setValue)
+	key := "ParseSimple: every part reaches the key lookup"
+	if len(calls) == 0 {
+		r.Unknown("R17.6", key, fn.Pos(), "setValue call not found")
+		return
+	}
+	ex, ok := calls[0].Common().Args[0].(*ssa.Extract)
+	if !ok {
+		r.Unknown("R17.6", key, fn.Pos(), "field is not a lookup result")
+		return
+	}
+	lk, ok := ex.Tuple.(*ssa.Lookup)
+	if !ok {
+		r.Unknown("R17.6", key, fn.Pos(), "field is not a lookup result")
+		return
+	}
+	// the outermost loop containing the lookup
+	var h *ssa.BasicBlock
+	var loop map[*ssa.BasicBlock]bool
+	for x := lk.Block(); x != nil; x = x.Idom() {
+		if l := core.NaturalLoop(x); l != nil && l[lk.Block()] && (loop == nil || len(l) > len(loop)) {
+			h, loop = x, l
+		}
+	}
+	if loop == nil {
+		r.Bad("R17.6", key, lk.Pos(), "the key lookup is not inside the loop over the DSN's parts")
+		return
+	}
+	good := true
+	core.EnumPaths(h, func(b *ssa.BasicBlock) bool { return b == h }, loop, 5000, func(pa core.Path, ended bool) {
+		if !ended || len(pa.Blocks) <= 2 {
+			return
+		}
+		through := false
+		for _, b := range pa.Blocks {
+			if b == lk.Block() {
+				through = true
+			}
+		}
+		if !through {
+			good = false
+		}
+	})
+	r.Check(good, "R17.6", key, lk.Pos(), "no path through an iteration bypasses ttf[key]", "an iteration over a key=value part can complete without the key being looked up: such a part (e.g. one with an empty value) is accepted even if its key matches no field, and it does not override an earlier occurrence")
 }
